@@ -400,6 +400,40 @@ def cover_check(decl, mode, seed, n, backend, what):
                 if got != want and len(fails) < 5:
                     fails.append(dict(name='enumeration returns exactly all minimum-cardinality covers by maximal boxes',
                                       returned=len(got), expected=len(want), sizes=str(sorted({len(g) for g in got})), kmin=kmin, **desc))
+                # the other public entry point: formulas of all minimal covers, with the
+                # care set given and omitted (omitted = TRUE)
+                if evals % 3 == 0 and len(want) <= 6:
+                    for care_arg, care_pts in ((care, cpts), (None, ref.points)):
+                        if care_arg is None and (len(cpts) == len(ref.points) or evals % 2):
+                            continue
+                        try:
+                            dnfs = cov_enum.to_expr(c, f) if care_arg is None else cov_enum.to_expr(c, f, care=care_arg)
+                        except AssertionError as e:
+                            if '_enumerate_mincovers_below' in _raised_in(e):
+                                continue      # known finding C10-F2, reported by the family above
+                            fails.append(dict(name='cover_enum.to_expr terminates without an internal AssertionError',
+                                              care_given=care_arg is not None, raised_in=_raised_in(e), **desc))
+                            continue
+                        except Exception as e:
+                            fails.append(dict(name='cover_enum.to_expr returns formulas (raises no exception)', error=repr(e)[:200],
+                                              care_given=care_arg is not None, **desc))
+                            continue
+                        if care_arg is not None and len(dnfs) != len(want) and len(fails) < 5:
+                            fails.append(dict(name='cover_enum.to_expr returns one formula per minimum-cardinality cover',
+                                              returned=len(dnfs), expected=len(want), **desc))
+                        for s_ in dnfs:
+                            try:
+                                g = c.add_expr(s_.replace('care expression', 'TRUE'))
+                            except Exception as e:
+                                fails.append(dict(name='each formula of cover_enum.to_expr is accepted by the formula parser', error=repr(e)[:200], text=s_[:300], **desc))
+                                break
+                            bad_pt = next((pt for pt in care_pts
+                                           if (c.let(dict(zip(names, pt)), g) == c.true) != (pt in fpts)), None)
+                            if bad_pt is not None:
+                                if len(fails) < 5:
+                                    fails.append(dict(name='each formula of cover_enum.to_expr agrees with the predicate at every assignment in the care set (care omitted = every assignment)',
+                                                      care_given=care_arg is not None, point=str(dict(zip(names, bad_pt))), text=s_[:300], **desc))
+                                break
                 continue
             boxes = _cover_boxes(c, cover, prm, names, ref)
             if what == 'C09':
